@@ -1,7 +1,7 @@
 (* All equivalence proofs between the translated Go functions (Gen/Translated.v) and the hand-written models.
    Each Props/Cxx.v requires only its own file; this one is the whole layer (make Xlate/Tie.vo). *)
 From TarsV Require Xlate.TarsRequestEquiv Xlate.CodecEquiv Xlate.ParseEquiv Xlate.BSWLEquiv Xlate.CheckActiveEquiv
-  Xlate.ReaderEquiv Xlate.ReaderSliceEquiv Xlate.ReqIdEquiv.
+  Xlate.ReaderEquiv Xlate.ReaderSliceEquiv Xlate.ReqIdEquiv Xlate.SelectEquiv Xlate.ConHashEquiv Xlate.FloatEquiv Xlate.TimeWheelEquiv Xlate.SWRREquiv.
 
 Print Assumptions TarsRequestEquiv.tr_TarsRequest_equiv.
 Print Assumptions CodecEquiv.tr_WriteHead_equiv.
@@ -33,3 +33,14 @@ Print Assumptions ReaderEquiv.tr_ReadString_total.
 Print Assumptions ReqIdEquiv.tr_genRequestID_equiv.
 Print Assumptions ReqIdEquiv.tr_genRequestID_loop_step.
 Print Assumptions ReaderEquiv.tr_SkipTo_equiv.
+Print Assumptions SelectEquiv.tr_rr_Select_equiv.
+Print Assumptions SelectEquiv.tr_mh_Select_equiv.
+Print Assumptions SelectEquiv.tr_rnd_Select_equiv.
+Print Assumptions ConHashEquiv.tr_ch_FindInt32_equiv.
+Print Assumptions GoSemFacts.go_search_least.
+Print Assumptions FloatEquiv.tr_WriteFloat64_equiv.
+Print Assumptions FloatEquiv.tr_ReadFloat_total.
+Print Assumptions TimeWheelEquiv.tr_tw_After_pos_equiv.
+Print Assumptions SWRREquiv.tr_BSWL_rounds_equiv.
+Print Assumptions SWRREquiv.tr_BSWL_rounds_model.
+Print Assumptions SWRREquiv.tr_BSWL_rounds_positive.
